@@ -324,7 +324,7 @@ func (t *tcSystem) solve(q tcQuery, solverKind string, timeout time.Duration, st
 
 // extractThread runs the VxTcThread harness for one (kind, cores) and returns the ops.
 func extractThread(prog *gose.Program, fn *ssa.Function, kind, cores, max int, st *smt.Stats) ([]int, []string, *gose.PathResult, error) {
-	s, err := smt.Start("z3-new", 60*time.Second, st)
+	s, err := smt.Start("z3-new", 300*time.Second, st)
 	if err != nil {
 		return nil, nil, nil, err
 	}
